@@ -17,7 +17,7 @@ needs from the shape of Differentiator.cpp, and what is decided here for every f
            or the function evaluated at that very point."""
 from fractions import Fraction
 from ..facts import extract, units_matching, Program, sx_find, sx_str
-from ..match import call_args, call_obj, var_of, field_of, ev_write, known_edges, only_via, expand_locals
+from ..match import call_args, call_obj, var_of, field_of, ev_write, known_edges, only_via, expand_locals, subst, fact_edges, value_sets, effective_calls
 from ..columns import _loop_var, _steps, _lit, _iter_bypass
 
 UNITS = r"SimTKmath/src/Differentiator\.cpp$"
@@ -177,6 +177,19 @@ def schemes(chk, P):
         loops = f.loops()
         # the step variable: initialised by cleanUpH(hEst, base coordinate)
         hd = [d for _, _, d in f.events(lambda d: d["k"] == "decl" and isinstance(d.get("init"), list) and d["init"][:1] == ["call"] and str(d["init"][1]).endswith("cleanUpH"))]
+        step_chain = expand_locals(f, hd[0]["init"], depth=3) if len(hd) == 1 else None
+        if not hd:
+            # the step computed by a helper of the same class whose single return is the cleanUpH(..) chain: substitute the arguments
+            for _, _, d in f.events(lambda d: d["k"] == "decl" and isinstance(d.get("init"), list) and d["init"][:1] == ["call"]):
+                gs = [g_ for g_ in P.all_fns() if g_.name == str(d["init"][1]) and g_.cls == REP and g_.blocks]
+                if len(gs) != 1:
+                    continue
+                rets = [r for _, _, r in gs[0].events(lambda q: q["k"] == "ret")]
+                if len(rets) == 1 and isinstance(rets[0].get("val"), list):
+                    body = expand_locals(gs[0], rets[0]["val"], depth=3)
+                    if sx_find(body, lambda y: y[0] == "call" and str(y[1]).endswith("cleanUpH")) and len(gs[0].d["params"]) == len(d["init"][3]):
+                        hd = [d]
+                        step_chain = subst(body, {p_[0]: a_ for p_, a_ in zip(gs[0].d["params"], d["init"][3])})
         if not chk.shape(len(hd) == 1, "STEP", name + ":step-variable", f.loc, "h = cleanUpH(hEst, y)"):
             continue
         hvar = hd[0]["var"]
@@ -281,7 +294,7 @@ def schemes(chk, P):
         chk.judge(okres and okord and not raw_uses, "STEP", name + ":order-of-the-resolved-method", f.loc,
                   "method = getMethodOrThrow(%s, defaultMethod, ..); order = getMethodOrder(method); other uses of the raw argument: %d" % (mv, len(raw_uses)))
         # STEP: h = cleanUpH(hEst, y0[i]); hEst = getAccFac(order) * max(|y0[i]|, YMin)
-        chain = expand_locals(f, hd[0]["init"], depth=3)
+        chain = expand_locals(f, step_chain, depth=3)
         ys = sx_find(chain, lambda y: (y[0] == "opc" and y[1] == "[]" and _strip(y[2]) == ["var", y0v]) or (not vector and y == ["var", y0v]))
         oki = bool(ys) and all((not vector) or _strip(y[3]) == ["var", iv] for y in ys)
         chk.judge(oki, "STEP", name + ":step-from-the-displaced-coordinate", f.loc, "%s" % sorted({sx_str(y) for y in ys}))
@@ -296,7 +309,8 @@ def tables(chk, P):
     g = P.fn(REP + "::getAccFac")
     ov = g.d["params"][0][0]
     for k, fld in (("1", "AccFac1"), ("2", "AccFac2")):
-        e = known_edges(g, lambda c, k=k: isinstance(c, list) and len(c) == 4 and c[1] == "==" and _strip(c[2]) == ["var", ov] and _lit(c[3], (k,)), lambda c: False)
+        e = fact_edges(g, lambda c, k=k: isinstance(c, list) and len(c) == 4 and c[1] == "==" and _strip(c[2]) == ["var", ov] and _lit(c[3], (k,)), None,
+                       case=lambda sc, lab, k=k: _strip(sc) == ["var", ov] and _lit(lab, (k,)))
         rs = [(b, r) for b, _, r in g.events(lambda q: q["k"] == "ret") if field_of(_strip(r.get("val"))) == REP + "::" + fld]
         chk.judge(len(rs) == 1 and bool(e) and only_via(g, rs[0][0], e), "STEP", "getAccFac:order-%s->%s" % (k, fld), g.loc, "")
     # constructor: AccFac1 = sqrt(acc), AccFac2 = acc^(1/3)
@@ -318,14 +332,14 @@ def tables(chk, P):
                       "members are initialised in declaration order")
     # getMethodOrder
     m = P.fn("SimTK::Differentiator::getMethodOrder")
+    mv = m.d["params"][0][0]
+    uni = {"UnspecifiedMethod", "ForwardDifference", "CentralDifference"}
+    VS = value_sets(m, lambda x: _strip(x) == ["var", mv], uni, kill=lambda q: q["k"] == "assign" and q["lhs"] == ["var", mv])
     got = {}
     for b, _, r in m.events(lambda q: q["k"] == "ret"):
-        lab = m.blocks[b].get("case")
-        if isinstance(lab, list):
-            labs = [y[1].split("::")[-1] for y in sx_find(lab, lambda y: y[0] in ("enum", "gvar"))]
-            v = _strip(r.get("val"))
-            if labs and isinstance(v, list) and v[:1] == ["lit"]:
-                got[labs[0]] = str(v[1])
+        v = _strip(r.get("val"))
+        if isinstance(v, list) and v[:1] == ["lit"] and len(VS[b]) == 1:
+            got[next(iter(VS[b]))] = str(v[1])
     chk.judge(got.get("ForwardDifference") == "1" and got.get("CentralDifference") == "2", "STEP", "getMethodOrder:Forward->1,Central->2", m.loc, str(got))
     chk.floor("STEP", 13)
 
@@ -342,7 +356,7 @@ def base_values(chk, P):
             f = fs[0]
             fy0p = f.d["params"][3][0]
             diffs = [(b, i, e) for b, i, e in f.calls() if str(e.get("fn", "")).startswith(REP + "::calc")]
-            evals = [(b, i, e) for b, i, e in f.calls() if str(e.get("fn", "")) == cls + "::call"]
+            evals = [(b, i, eff) for b, i, site, eff in effective_calls(P, f, cls + "::call")]
             inst = "%s::%s" % (cls.split("::")[-1], meth)
             if not chk.shape(len(diffs) >= 1 and len(evals) == 1, "BASE", inst + ":sites", f.loc, "%d difference calls, %d own evaluations" % (len(diffs), len(evals))):
                 continue
